@@ -276,6 +276,24 @@ def add_cross_module_conflict_pattern(D, rnd):
         D.nbits += 1
         D.modwrap[body.key] = (sid, alt, D.nbits - 1)
         add_prefix(body, ((("if", sid), alt),))
+    if rnd.random() < 0.5 or getattr(D, "xmod_shared_call", False):
+        # variant: instead of (or besides) the declared conflict, both bodies CALL one exclusive method - the two call sites sit at mirrored
+        # positions of structures in different modules, they are not mutually exclusive and the callers must conflict
+        m_idx = D.nm
+        D.nm += 1
+        D.meth.append(dict(has_in=False, nonex=False, validate=None, combiner=None, single_caller=False))
+        mb = B("m", m_idx)
+        mb.pos = ((("body", "m", m_idx), 0),)
+        D.nbits += 1
+        mb.rdy = D.nbits - 1
+        D.bodies[mb.key] = mb
+        D.order.append(mb)
+        D.deford[mb.key] = len(D.deford)
+        for body in (a, b):
+            body.stmts.append(("call", new_site(D, body, m_idx)))
+        D.count_xmod_shared_call = True
+        if rnd.random() < 0.5:
+            return True
     D.confl.append((a.key, b.key, Priority.UNDEFINED))
     return True
 
@@ -1224,11 +1242,18 @@ def run_design(rec: Rec, D, A, rnd: random.Random, case: dict, sched: str = "eag
         else:
             plan = [None] * cycles
         pr = rnd.choice([0.2, 0.5, 0.9])
+        # bits that steer control structures (If/Elif conditions, Switch selectors, module-level wrappers): in every second epoch they are drawn
+        # uniformly whatever the readiness regime is, so that "everything ready" phases still visit all alternatives
+        ctrl = set(c for conds in D.ifconds.values() for c in conds) | set(b_ for sel, _ in D.swinfo.values() for b_ in sel) | \
+            set(w[2] for w in getattr(D, "modwrap", {}).values())
+        uniform_ctrl = False
         for cyc, pv in enumerate(plan):
             if cyc % 25 == 0:
                 pr = rnd.choice([0.1, 0.5, 0.9, 0.97] + ([1.0, 1.0] if sched == "rr" else []))
+                uniform_ctrl = (cyc // 25) % 2 == 1
             for i, s in enumerate(e.bits):
-                ctx.set(s, (pv >> i) & 1 if pv is not None else int(rnd.random() < pr))
+                p_i = 0.5 if (uniform_ctrl and i in ctrl) else pr
+                ctx.set(s, (pv >> i) & 1 if pv is not None else int(rnd.random() < p_i))
             for s in e.ins:
                 ctx.set(s, rnd.randrange(16) if rnd.random() < 0.7 else 3)
             bits = [ctx.get(s) for s in e.bits]
@@ -1452,6 +1477,8 @@ def run_design(rec: Rec, D, A, rnd: random.Random, case: dict, sched: str = "eag
         if not rec.viol_total:
             rec.harness_error("simulation crashed: " + traceback.format_exc()[-500:])
     rec.count("designs_simulated")
+    if getattr(D, "count_xmod_shared_call", False):
+        rec.count("designs_with_cross_module_mirrored_call_sites")
     if getattr(D, "relations_via_proxy", 0):
         rec.count("conflicts_declared_on_proxy_methods", D.relations_via_proxy)
     if exhaustive:
